@@ -393,6 +393,24 @@ def gen(rng, tier):
         if rng.random() < 0.5:
             a["segexp"] = a["segnum"]
         out.append(Case("seg.close1 %s %s" % (dline(a), dline(b)), kind="close-random", theorem="C19_can_close_abstraction"))
+    # 1c. the relation must not depend on anything else: the same random pairs with "noise" (cancel indicator, duration, UPID,
+    # components, restriction flags, tier / stuffing of the signal, neighbouring descriptors) set through the public setters
+    # on either descriptor; the model ignores the noise (seeded C19-z2: CanClose false once a cancel indicator is set)
+    for k in range(1500 if tier == "quick" else 60000):
+        a = dict(id=0, ty=rng.choice(rt), event=rng.randrange(2 ** 32), haspts=rng.choice([1, 1, 0]), ptsv=rng.randrange(2 ** 33),
+                 segnum=rng.randrange(256), segexp=rng.randrange(256), hassub=rng.randrange(2), subnum=rng.randrange(256), subexp=rng.randrange(256))
+        b = dict(id=1, ty=rng.choice(rt), event=rng.choice([a["event"], a["event"], a["event"], rng.randrange(2 ** 32)]),
+                 haspts=rng.choice([1, 1, 0]), ptsv=rng.choice([a["ptsv"], rng.randrange(2 ** 33), a["ptsv"] ^ (1 << rng.randrange(33))]),
+                 segnum=rng.randrange(256), segexp=rng.randrange(256), hassub=rng.randrange(2), subnum=rng.randrange(256), subexp=rng.randrange(256))
+        if rng.random() < 0.6:
+            a["segexp"] = a["segnum"]
+        if rng.random() < 0.5:
+            a["subexp"] = a["subnum"]
+        na = 1 << (k % 10) if k < 20 else rng.randrange(1 << 11)
+        nb = 1 << ((k + 5) % 10) if 10 <= k < 30 else rng.choice([0, rng.randrange(1 << 11)])
+        if k % 3 == 0:
+            na, nb = nb, na
+        out.append(Case("seg.close1n %s %s %d %d" % (dline(a), dline(b), na, nb), kind="close-noise", theorem="C19_can_close_abstraction"))
     # 2. classification
     out.append(Case("seg.inout", kind="inout", theorem="C19_in_out_lists"))
     # 3. Equal grid
@@ -410,6 +428,17 @@ def gen(rng, tier):
     for b in bases:
         fam = family(b, rng)
         out.append(Case("seg.eqm " + " ".join(dline(d) for d in fam), kind="equal-grid", theorem="C19_equal_sym"))
+    # 3b. Equal with noise: each base, the base again with different noise, and two single-field variants
+    for bi, b in enumerate(bases):
+        fam = family(b, rng)
+        pick = [fam[0], fam[0]] + [fam[i] for i in sorted(rng.sample(range(1, len(fam)), min(3, len(fam) - 1)))] + [fam[0]]
+        for rep in range(2 if tier == "quick" else 8):
+            ns = [rng.randrange(1 << 11) for _ in pick]
+            if rep == 0:
+                ns[0] = 0
+                ns[1] = 1 << (bi % 10)
+            out.append(Case("seg.eqn [ %s ] %s" % (" ".join(map(str, ns)), " ".join(dline(d) for d in pick)), kind="equal-noise",
+                            theorem="C19_equal_sym"))
     # 4. the same relations on descriptors DECODED from section bytes
     out += gen_decoded(rng, tier)
     return out
@@ -577,6 +606,17 @@ def oracle(case, real, model):
                         return "Equal(descriptor %d, descriptor %d) of the family: real %d, required %d" % (i, j, r[i][j], m[i][j])
             if r[n] != m[n]:
                 return "Equal modified one of its arguments"
+        if f[0] == "seg.close1n":
+            names = ["CanClose(d, o)", "d.IsIn()", "d.IsOut()", "o.IsIn()", "o.IsOut()"]
+            for k in range(5):
+                if r[k] != m[k]:
+                    return ("%s = %d, required %d: the relation depends on a field outside (type, event id, PTS, segment numbers) - "
+                            "noise masks d=%s o=%s (goexec/seg.go mkDescN)" % (names[k], r[k], m[k], f[-2], f[-1]))
+        if f[0] == "seg.eqn":
+            for i in range(len(m)):
+                for j in range(len(m)):
+                    if r[i][j] != m[i][j]:
+                        return "Equal(descriptor %d, descriptor %d) built with noise: real %d, required %d" % (i, j, r[i][j], m[i][j])
     except Exception as e:
         return "observed differs from required (%s)" % e
     return "observed differs from required"
